@@ -115,7 +115,7 @@ def stmt_hash(s: str) -> str:
 
 
 SPEC_FILES = ["DafRel/Model/Sem.lean", "DafRel/Spec/Preds.lean", "DafRel/Spec/History.lean",
-              "DafRel/Spec/Commute.lean", "DafRel/Spec/Backtrack.lean", "DafRel/Spec/Select.lean"]
+              "DafRel/Spec/Commute.lean", "DafRel/Spec/Backtrack.lean", "DafRel/Spec/Select.lean", "DafRel/Spec/SqlCompile.lean"]
 
 
 def spec_hashes() -> dict[str, str]:
